@@ -60,6 +60,18 @@ pub mod sync {
         }
     }
 
+    impl<T: Default> Default for Mutex<T> {
+        fn default() -> Self {
+            Mutex::new(T::default())
+        }
+    }
+
+    impl<T> From<T> for Mutex<T> {
+        fn from(v: T) -> Self {
+            Mutex::new(v)
+        }
+    }
+
     impl<T: ?Sized + fmt::Debug> fmt::Debug for Mutex<T> {
         fn fmt(&self, f: &mut fmt::Formatter<'_>) -> fmt::Result {
             f.write_str("Mutex { .. }")
